@@ -2325,3 +2325,318 @@ def r17(cx):
 RS.explanation += (' Added after seed C16-s8: every context index that is compared with an entry\'s context_index, stored in a new entry or handed '
                    'to Iter derives, across helpers / closures / arithmetic, only from constants, VariableSet::contexts and entries\' own indices - '
                    'never from another stored field of the set (R16); VariableSet, VariableInContext and Iter have exactly their reviewed fields (R17).')
+
+
+# ------------------------------------------------------------------ R18 / R19 (seeds C16-s9, C16-s10: which scope typeset and unset ask for)
+TS = 'yash_builtin::typeset::'
+TS_SCOPE = TS + 'Scope'
+TS_INTERPRET = TS + 'syntax::interpret'
+TS_OPTSPEC = TS + 'syntax::OptionSpec'
+TS_GLOBAL_OPTION = TS + 'syntax::GLOBAL_OPTION'
+TS_SCOPED_COMMANDS = {TS + 'SetVariables': 'typeset / local / export / readonly NAME...: declares the operands in this scope',
+                      TS + 'PrintVariables': 'typeset -p / typeset without operands: prints the variables of this scope'}
+OPT_PRESENT = [re.compile(r'^core::option::Option::<T>::is_some$')]
+OPT_ABSENT = [re.compile(r'^core::option::Option::<T>::is_none$')]
+
+
+def _unit_variant_defs(body, du, operand, adt, depth=6):
+    """The definitions an operand of enum type `adt` may come from, through copies of whole locals with any number of definitions:
+    [(block, variant)] when every one of them builds a field-less variant; None when some definition is computed otherwise."""
+    p = Q.operand_place(operand)
+    if p is None:
+        return None
+    out, seen, work = [], set(), [(p, depth)]
+    while work:
+        p, d = work.pop()
+        if p.get('p') or d == 0:
+            return None
+        l = p['l']
+        if l in seen:
+            continue
+        seen.add(l)
+        defs = du.defs.get(l, [])
+        if not defs:
+            return None
+        for blk, idx, node in defs:
+            if idx == 't' or node['k'] != 'assign' or node['lhs'].get('p'):
+                return None
+            rv = node['rv']
+            if rv['k'] == 'agg' and rv.get('ak') == 'adt' and rv.get('adt') == adt and not rv.get('ops'):
+                out.append((blk, str(rv['variant'])))
+            elif rv['k'] == 'use' and Q.operand_place(rv['o']) is not None:
+                work.append((Q.operand_place(rv['o']), d - 1))
+            else:
+                return None
+    return out
+
+
+def _copy_root(du, l, depth=6):
+    """The local a local is a plain single-definition copy of (the parameter of an inlined helper -> the caller's variable)."""
+    for _ in range(depth):
+        d = du.single_def(l)
+        if d is None or d[1] == 't' or d[2]['k'] != 'assign' or d[2]['rv']['k'] != 'use':
+            return l
+        q = Q.operand_place(d[2]['rv']['o'])
+        if q is None or q.get('p'):
+            return l
+        l = q['l']
+    return l
+
+
+def _flag_tested(du, org, labels):
+    """A switch that tests whether an option was seen, in the shapes a flag is kept: `Option<_>` local (match / if let / is_some / is_none) or
+    bool local. -> (flag local, {successor: True (seen) | False (not seen)}) or None."""
+    def by(present_label, absent_label):
+        out = {}
+        for tgt, labs in labels.items():
+            labs = set(labs)
+            if labs == {present_label}:
+                out[tgt] = True
+            elif labs == {absent_label}:
+                out[tgt] = False
+        return out
+    flip, hops = False, 0
+    while org.get('k') == 'unop' and org['rv'].get('op') == 'Not' and hops < 3:        # `if !flag.is_some()`
+        org, flip, hops = du.origin(org['rv']['o']), not flip, hops + 1
+    if flip:
+        labels = {tgt: [('bool', not lab[1]) if lab[0] == 'bool' else lab for lab in labs] for tgt, labs in labels.items()}
+    if org['k'] == 'discr' and not org['pl'].get('p') and str(org.get('ty', '')).startswith('core::option::Option<'):
+        return org['pl']['l'], by(('variant', 'Some'), ('variant', 'None'))
+    if org['k'] == 'call' and org['t'].get('a') and (Q.callee_is(org['t'], OPT_PRESENT) or Q.callee_is(org['t'], OPT_ABSENT)):
+        pl = _trace_place(du, org['t']['a'][0])
+        if pl is not None and not pl.get('p'):
+            pos = Q.callee_is(org['t'], OPT_PRESENT)
+            return pl['l'], by(('bool', bool(pos)), ('bool', not pos))
+    if org['k'] == 'place' and not org['pl'].get('p') and du.body.locals[org['pl']['l']].get('ty') == 'bool':
+        return org['pl']['l'], by(('bool', True), ('bool', False))
+    return None
+
+
+def _option_flag_defs(F, body, du, flag, short):
+    """Is local `flag` the record of "the option whose short name is `short` occurred"? Every definition is either the constant `not seen`
+    (None / false) or the constant `seen` (Some(_) / true) on an edge where OptionSpec::short of the option looked at equals `short`.
+    -> (ok, why-not, [blocks of the `seen` definitions], [(switch block, target) edges that select the option])"""
+    seen_defs, sel_edges = [], set()
+    defs = du.defs.get(flag, [])
+    if not defs:
+        return False, 'it is a parameter', [], []
+    for blk, idx, node in defs:
+        if idx == 't' or node['k'] != 'assign' or node['lhs'].get('p'):
+            return False, 'it is computed at %s' % body.loc(node), [], []
+        rv = node['rv']
+        val = None
+        if rv['k'] == 'agg' and rv.get('ak') == 'adt' and rv.get('adt') == 'core::option::Option':
+            val = str(rv['variant']) == 'Some'
+        elif rv['k'] == 'use':
+            val = _const_bool(rv['o'])
+            if val is None:
+                o = du.origin(rv['o'])
+                if o['k'] == 'agg' and o['rv'].get('adt') == 'core::option::Option':
+                    val = str(o['rv']['variant']) == 'Some'
+        if val is None:
+            return False, 'it is computed at %s' % body.loc(node), [], []
+        if not val:
+            continue
+        def selects(org, lab):
+            if lab == ('int', short) and org['k'] == 'place':                       # match option.spec.short { 'g' => .. }
+                return _projects(org['pl'], TS_OPTSPEC, 'short')
+            if lab == ('bool', True) and org['k'] == 'binop' and org['rv'].get('op') == 'Eq':      # if short == 'g' / `c if c == 'g'`
+                a, b_ = org['rv']['a'], org['rv']['b']
+                for x, y in ((a, b_), (b_, a)):
+                    pl = _trace_place(du, x) if Q.operand_place(x) is not None else None
+                    if pl is not None and _projects(pl, TS_OPTSPEC, 'short') and str(y.get('c')) == repr(chr(short)) and y.get('ty') == 'char':
+                        return True
+            return False
+        sel = [e for org, lab, e in Q.implied_conditions(F, body, du, blk) if selects(org, lab)]
+        if not sel:
+            return False, 'it is set at %s where the option looked at is not known to be the one with that short name' % body.loc(node), [], []
+        seen_defs.append(blk)
+        sel_edges.update(sel)
+    if not seen_defs:
+        return False, 'it is never set', [], []
+    return True, '', seen_defs, sorted(sel_edges)
+
+
+@RS.rule('C16.R18', 'K-TABLE', 'the scope typeset / local / export / readonly act in is a function of the -g/--global option alone: in '
+         'typeset::syntax::interpret, for SetVariables and for PrintVariables, the `scope` field is Scope::Global exactly when the option was '
+         'seen and Scope::Local otherwise - no attribute (export, read-only), no other option (-p, -f, -X) and no operand takes part, and '
+         'every occurrence of the option is recorded')
+def r18(cx):
+    F = cx.F
+    body = F.inlined(TS_INTERPRET)
+    cx.fn(TS_INTERPRET)
+    du = Q.DefUse(body)
+    cx.require(TS_SCOPE in F.adts and [v['name'] for v in F.adts[TS_SCOPE]['variants']] == ['Global', 'Local'],
+               'typeset::Scope is no longer the enum {Global, Local}: review the scope table of the typeset family')
+    h = F.hir.get(TS_GLOBAL_OPTION)
+    cx.require(h is not None, 'typeset::syntax::GLOBAL_OPTION not found (renamed?)')
+    spec = H.const_eval(h['body'])
+    short = spec[2].get('short') if isinstance(spec, tuple) and len(spec) == 3 and isinstance(spec[2], dict) else None
+    cx.require(isinstance(short, str) and len(short) == 1, 'GLOBAL_OPTION.short is not a character constant this rule can read (%r)' % (spec,))
+    short = ord(short)
+    live = body.live_blocks()
+    reach = {}
+
+    def reachable_from(s):
+        if s not in reach:
+            reach[s] = set(body.reachable(s)) | {s}
+        return reach[s]
+
+    flags = {}
+    for adt in sorted(TS_SCOPED_COMMANDS):
+        name = adt.rsplit('::', 1)[-1]
+        aggs = [(b, j, s) for b, j, s in Q.find_aggregates(body, adt) if b in live]
+        cx.require(aggs, 'interpret no longer builds %s itself (moved? review where the scope of %s is chosen)' % (name, TS_SCOPED_COMMANDS[adt]))
+        for ub, j, s in aggs:
+            rv = s['rv']
+            names = [str(f) for f in rv.get('fields') or []]
+            cx.require('scope' in names and names.index('scope') < len(rv['ops']), '%s has no field `scope` any more' % name)
+            defs = _unit_variant_defs(body, du, rv['ops'][names.index('scope')], TS_SCOPE)
+            cx.require(defs is not None, 'interpret: the scope given to %s at %s is not chosen among Scope constants inside interpret (computed '
+                       'by a helper this rule cannot see through): review' % (name, body.loc(s)))
+            allD = {d for d, v in defs if d in live}
+
+            def alive(d):        # the definition in block d can be the one the command is built with
+                return d == ub or any(ub in body.reachable(sx, removed=allD - {d}) for sx in body.succ(d))
+            defs = [(d, v) for d, v in defs if d in allD and alive(d)]
+            cx.require(defs, 'interpret: no definition of the scope reaches %s at %s' % (name, body.loc(s)))
+            D = {}
+            for d, v in defs:
+                D.setdefault(d, set()).add(v)
+            variants = sorted({v for d, v in defs})
+            # the switches that decide WHICH definition the command gets: the definitions that can be the last one before the command
+            # differ between the successors (downstream definitions, or - when the successor reaches the command without passing a
+            # definition - the ones that were in force at the switch: `let mut scope = Local; if g { scope = Global }`)
+            deciding = []
+            for u in sorted(live):
+                if body.term(u)['k'] != 'switch':
+                    continue
+                upstream = frozenset(d for d in D if d == u or any(u in body.reachable(sx, removed=allD - {d}) for sx in body.succ(d)))
+                per = {}
+                for sx in set(body.succ(u)):
+                    r = frozenset(d for d in D if d in reachable_from(sx))
+                    if sx not in allD and ub in body.reachable(sx, removed=allD):
+                        r |= upstream
+                    if r:
+                        per[sx] = r
+                if len(set(per.values())) > 1:
+                    deciding.append((u, per))
+            cx.site('interpret: %s at %s gets scope %s; decided by the test(s) at %s'
+                    % (name, body.loc(s), '/'.join(variants), ', '.join(body.loc(body.term(u)) for u, _ in deciding) or '-'))
+            cx.cellcount(2)
+            for want in ('Global', 'Local'):
+                if want not in variants:
+                    cx.violation(TS_INTERPRET, 'scope-never-%s:%s' % (want.lower(), name), '%s is only ever built with Scope::%s: %s' % (
+                        name, '/'.join(variants), 'inside a function `typeset v=1` / `local v` assigns the global (or whatever is visible) '
+                        'instead of making a local that vanishes at return' if want == 'Local' else
+                        '`typeset -g v=1` inside a function makes a local instead of reaching the global'), loc=body.loc(s))
+            for u, per in deciding:
+                ec = Q.edge_condition(F, body, du, u)
+                ft = _flag_tested(du, ec[0], ec[1]) if ec else None
+                okflag = None
+                if ft is not None:
+                    ft = (_copy_root(du, ft[0]), ft[1])
+                    if ft[0] not in flags:
+                        flags[ft[0]] = _option_flag_defs(F, body, du, ft[0], short)
+                    okflag = flags[ft[0]]
+                if ft is None or not okflag[0]:
+                    what = ('`%s`, which does not record the -g option: %s' % (body.local_name(ft[0]) or '_%d' % ft[0], okflag[1])) if ft is not None \
+                        else 'a condition that is not the presence of the -g option'
+                    cx.violation(TS_INTERPRET, 'scope-decided-by-other-than-global-option:%s' % name,
+                                 'the scope of %s also depends on %s. The scope is Global with -g/--global and Local without, whatever else is '
+                                 'on the command line: e.g. with the export attribute taking part, `f() { typeset -x tmp=1; }; f` leaves a '
+                                 'global exported `tmp` behind (and overwrites the caller\'s `tmp`) although locals vanish at return'
+                                 % (name, what), loc=body.loc(body.term(u)))
+                    continue
+                for sx, r in sorted(per.items()):
+                    pol = ft[1].get(sx)
+                    got = sorted({v for d in r for v in D[d]})
+                    if pol is None:
+                        continue
+                    want = 'Global' if pol else 'Local'
+                    if got != [want]:
+                        cx.violation(TS_INTERPRET, 'scope-table:%s:%s' % (name, 'with-g' if pol else 'without-g'),
+                                     '%s the -g option %s gets Scope::%s instead of Scope::%s: `typeset%s v` in a function %s'
+                                     % ('with' if pol else 'without', name, '/'.join(got), want, ' -g' if pol else '',
+                                        'makes a local instead of reaching the global' if pol else 'changes the global instead of making a local'),
+                                     loc=body.loc(body.term(u)))
+    # every occurrence of the option is recorded: from the edge that selects the option no path gets back to the option loop / out
+    # of the function without setting the flag
+    cx.require(flags or cx.violations, 'interpret: no test of an option flag decides the scope (the scope is chosen in a way this rule does not understand)')
+    for fl, (ok, why, seen_defs, sel_edges) in sorted(flags.items()):
+        if not ok:
+            continue
+        nm = body.local_name(fl) or '_%d' % fl
+        cx.site('interpret: `%s` records the -g option: set at %s on the edge(s) where OptionSpec::short == %r'
+                % (nm, ', '.join(body.loc(body.blocks[b]['s'][-1]) if body.blocks[b]['s'] else 'bb%d' % b for b in seen_defs), chr(short)))
+        for u, tgt in sel_edges:
+            goals = set(body.return_blocks()) | {u}
+            p = Q.must_pass(body, [tgt], seen_defs, goals)
+            if p is not None:
+                cx.violation(TS_INTERPRET, 'global-option-not-recorded', 'an occurrence of -g/--global can be passed over without being recorded '
+                             '(e.g. depending on its state or on another option): `typeset -g v=1` in a function then makes a local',
+                             loc=body.loc(body.term(u)), path=Q.render_path(body, p))
+
+
+UNSET_CALLERS = {
+    # production caller of VariableSet::unset -> (scope it must pass, why)
+    'yash_builtin::unset::semantics::unset_variables': ('Global', 'the unset built-in removes the variable from every context it is visible '
+                                                        'through (documented: "unset x" leaves no x), so a hidden outer x does not reappear'),
+    'yash_builtin::getopts::report::<impl yash_builtin::getopts::model::Result>::report': ('Global', 'getopts unsets OPTARG as the shell variable it sets with Scope::Global'),
+}
+VSET_UNSET = VSET + '::unset'
+UNSET_MAIN = 'yash_builtin::unset::main'
+
+
+@RS.rule('C16.R19', 'K-CALLERS+K-CONST', 'unsetting a variable on behalf of the user removes it from every context: every production call of '
+         'VariableSet::unset is a reviewed caller (the unset built-in, getopts for OPTARG) and passes the constant Scope::Global - never Local / '
+         'Volatile and never a scope computed from the state of the variables')
+def r19(cx):
+    F = cx.F
+    cx.require(VSET_UNSET in F.bodies, 'VariableSet::unset not found (renamed?)')
+    calls = F.callers_of(lambda names, t: VSET_UNSET in names)
+    seen = set()
+    for b, blk, t in calls:
+        cx.fn(b.fn)
+        du = Q.DefUse(b)
+        defs = _unit_variant_defs(b, du, t['a'][2], V + 'Scope') if len(t['a']) > 2 else None
+        if defs is None and len(t['a']) > 2:
+            o = du.origin(t['a'][2])
+            if o['k'] == 'agg' and o['rv'].get('adt') == V + 'Scope' and not o['rv'].get('ops'):
+                defs = [(o.get('b'), str(o['rv']['variant']))]
+            elif o['k'] == 'const' and re.search(r'Scope::(Global|Local|Volatile)\b', str(o['o'].get('c'))):
+                defs = [(None, re.search(r'Scope::(Global|Local|Volatile)\b', str(o['o'].get('c'))).group(1))]
+        variants = sorted({v for _, v in defs}) if defs else None
+        shown = '/'.join(variants) if variants else '<computed>'
+        want = UNSET_CALLERS.get(b.root)
+        seen.add(b.root)
+        cx.cellcount(1)
+        cx.site('%s: VariableSet::unset(.., Scope::%s) at %s - %s' % (b.root, shown, b.loc(t), want[1] if want else 'NOT REVIEWED'))
+        if want is None:
+            cx.violation(b.root, 'unreviewed-unset-caller', 'VariableSet::unset is called from a function that is not a reviewed caller (scope '
+                         '%s): which contexts lose the variable decides what a later lookup finds (a hidden outer variable reappears after a '
+                         'Local / Volatile unset)' % shown, loc=b.loc(t))
+        elif variants != [want[0]]:
+            cx.violation(b.root, 'unset-scope:%s' % ('+'.join(variants) if variants else 'computed'),
+                         'the variable is unset with Scope::%s instead of the constant Scope::%s: %s. With a narrower scope, `x=outer; f() { '
+                         'typeset x=inner; unset x; echo "${x-unset}"; }; f` prints `outer` (only the local is removed, the hidden variable '
+                         'reappears and survives the return), and a read-only variable below the local is no longer an error'
+                         % (shown, want[0], want[1]), loc=b.loc(t))
+    for b in F.bodies.values():
+        if _mentions_fn(b, VSET_UNSET):
+            cx.violation(b.root, 'unset-as-value', 'VariableSet::unset is used as a function value: the scope it is applied with cannot be read '
+                         'off the call', loc='%s:%s' % (b.file, b.line))
+    for fn in sorted(UNSET_CALLERS):
+        cx.require(fn in seen or cx.violations, 'reviewed caller %s no longer calls VariableSet::unset itself (moved? review which scope the '
+                   'variable is unset in)' % fn)
+    # the unset built-in reaches its reviewed caller
+    mains = [b for b in F.logical(UNSET_MAIN)] if UNSET_MAIN in F.by_root else []
+    cx.require(mains, 'yash_builtin::unset::main not found')
+    reached = any(pp.callee(t) == 'yash_builtin::unset::semantics::unset_variables' for mb in mains for _, t in mb.calls())
+    cx.site('unset::main calls unset_variables: %s' % reached)
+    cx.require(reached, 'the unset built-in no longer unsets variables through unset::semantics::unset_variables (review the new path)')
+
+
+RS.explanation += (' Added after seeds C16-s9 / C16-s10: in typeset::syntax::interpret the scope of SetVariables / PrintVariables is decided only by '
+                   'tests of the flag that records the option whose short name is GLOBAL_OPTION.short - Global when seen, Local otherwise, every '
+                   'occurrence recorded (R18); every production call of VariableSet::unset is a reviewed caller passing the constant Scope::Global (R19).')
